@@ -276,6 +276,76 @@ fn run_parts(ctx: &Ctx, rep: &mut Report) {
     rep.samples.extend(st.local.samples_json(3));
 }
 
+/// `ExtensionsMap::other` is a public field.  The parser never fills it and today's serialiser
+/// ignores it; C05 leaves it out explicitly.  C04 does not: a value whose `other` map has been
+/// assigned is "obtainable through the safe API", and its text must be canonical.  Two outputs are
+/// canonical readings of such a value: (A) the text without the other extensions (the field is not
+/// serialised -- the current library), or (B) the text with every extension in UTS #35 canonical
+/// order: singletons in alphabetical order, private use last (which keeps t before u before x).
+/// Anything else -- e.g. the other extensions in front of -t-/-u-, or behind -x- -- is a violation.
+fn run_other_field(rep: &mut Report) {
+    use tinystr::TinyAsciiStr;
+    let coll = std::mem::take(&mut rep.collector);
+    let bases = ["en", "en-US-u-ca-buddhist", "en-t-es-AR-h0-hybrid", "en-x-priv", "en-US-valencia-t-es-AR-h0-hybrid-u-abc-ca-buddhist-x-priv-zz", "und-u-nu"];
+    // every singleton of the `other` production: [0-9 a-s v-w y-z]
+    let keys: Vec<char> = ('0'..='9').chain('a'..='z').filter(|c| !matches!(c, 't' | 'u' | 'x')).collect();
+    let vals: [&[&str]; 2] = [&["foo"], &["bar12345", "ab"]];
+    let mut n = 0u64;
+    let mut printed = 0u64;
+    let mut check = |base: &str, entries: &[(char, &[&str])]| {
+        n += 1;
+        let r = guard_total(|| {
+            let mut loc: Locale = base.parse().expect("base locale");
+            let plain = loc.to_string();
+            for (k, v) in entries {
+                let list: Vec<TinyAsciiStr<8>> = v.iter().map(|x| x.parse().expect("tinystr")).collect();
+                loc.extensions.other.insert(*k, list);
+            }
+            (plain, loc.to_string(), loc.id.to_string(), loc.extensions.transform.to_string(), loc.extensions.unicode.to_string(), loc.extensions.private.to_string())
+        });
+        let desc = format!("other:{}|{}", base, entries.iter().map(|(k, v)| format!("{}-{}", k, v.join("-"))).collect::<Vec<_>>().join(","));
+        match r {
+            Ok((plain, got, id, t, u, x)) => {
+                // (B): singletons in alphabetical order, private use last
+                let mut parts: Vec<(char, String)> = entries.iter().map(|(k, v)| (*k, format!("-{}-{}", k, v.join("-")))).collect();
+                if !t.is_empty() {
+                    parts.push(('t', t));
+                }
+                if !u.is_empty() {
+                    parts.push(('u', u));
+                }
+                parts.sort();
+                let full = format!("{}{}{}", id, parts.iter().map(|p| p.1.as_str()).collect::<String>(), x);
+                if got != plain {
+                    printed += 1;
+                }
+                if got != plain && got != full {
+                    pviol(&coll, n, "c04.other", "a value with assigned `other` extensions is serialised neither without them nor in canonical singleton order", &desc, format!("{} or {}", plain, full), got);
+                }
+            }
+            Err(p) => pviol(&coll, n, "c04.other", "serialising a value with assigned `other` extensions panics", &desc, "a string".into(), p),
+        }
+    };
+    for base in bases {
+        for (i, k1) in keys.iter().enumerate() {
+            for v in vals {
+                check(base, &[(*k1, v)]);
+            }
+            for k2 in &keys[i + 1..] {
+                check(base, &[(*k1, vals[0]), (*k2, vals[1])]);
+                check(base, &[(*k2, vals[0]), (*k1, vals[1])]);
+            }
+        }
+    }
+    rep.collector = coll;
+    rep.states += n;
+    rep.transitions += n;
+    rep.traces += n;
+    rep.evaluations += n;
+    rep.extra.insert("other_field".into(), json!({"kind": "6 base locales x every one and every two of the 33 `other` singletons [0-9a-sv-wy-z] assigned to the public field ExtensionsMap::other: to_string must be the text without them or the text with all extensions in canonical singleton order (private use last)",
+        "values": n, "values_whose_text_shows_the_other_extensions": printed}));
+}
+
 fn keep_only(rep: &mut Report, prefixes: &[&str]) {
     // the shared per-value checks report under several properties; keep this property's
     rep.collector.retain(|sub| prefixes.iter().any(|p| sub.starts_with(p)));
@@ -425,6 +495,7 @@ pub fn run_c04(ctx: &Ctx) -> Report {
         rep.engine_failures.push("vacuity guard: no accepted inputs".into());
     }
     run_parts(ctx, &mut rep);
+    run_other_field(&mut rep);
     let sum = run_harnesses(ctx, history::std_set(ctx), &["c04."], &mut rep, false);
     super::counts::run_count_histories(ctx, &mut rep, &["c04."]);
     fill_report(&mut rep, &sum, "C04: to_string of every reachable value");
